@@ -238,7 +238,11 @@ def replay(case):
             coll = rel.build(case["q"], env, "dask")
         except Exception as ex:
             return {"unrealizable": str(ex)[:100]}
-        ui = "merge" not in rel.ops_of(case["q"])      # a merge on columns restarts the index labels per chunk
+        ops_ = rel.ops_of(case["q"])
+        UNORD = ("shuffle", "merge", "dropdup", "unique", "valuecounts", "sort", "setindex", "combinefirst")
+        # a merge on columns restarts the index labels per chunk; reset_index after an operator that leaves the row order inside
+        # partitions unspecified (disk shuffle ...) numbers the rows in that unspecified order: the labels are not part of a row's identity
+        ui = "merge" not in ops_ and not any(o == "resetindex" and any(u in ops_[:i] for u in UNORD) for i, o in enumerate(ops_))
         t = observe_fusion(coll, tid, "query", use_index=ui)
         t["ordered"] = not any(o in ("shuffle", "merge", "dropdup", "unique", "valuecounts", "sort", "setindex", "combinefirst") for o in rel.ops_of(case["q"]))
         out.append(t)
